@@ -48,6 +48,7 @@ let check_tokens (cfg : econfig) (ops : eop list) (tr : tok list) : unit =
   let run_state = Hashtbl.create 8 in  (* C09: run -> (foreign ID, run state of its last committed write) *)
   let c09_reported = Hashtbl.create 8 in
   let lost_procs = Hashtbl.create 8 in (* C07/C11: processes whose role was revoked while parked and that have not been stepped since *)
+  let cur_key = Hashtbl.create 8 in   (* C13: (inst, poller) -> key of the failing invocation being followed *)
   let cur_event = Hashtbl.create 8 in  (* proc -> event being handled (survives a lag wait) *)
   let now = ref 0 in
   List.iteri (fun n seg ->
@@ -316,7 +317,39 @@ let check_tokens (cfg : econfig) (ops : eop list) (tr : tok list) : unit =
                 bad "C13" "run %d resumed %d ns after it was paused, before the interval %d" (ni r.r_run) (!now - zi p.r_updated) (zi cfg.ec_retry)
             | _ -> ()) body
         | _ -> ())
-     | Some (_, EPoller s) ->
+     | Some (inst, (EPoller s as u)) ->
+       (* C13 on the timeout path: a poll cycle handles several timers; each failing timeout function counts towards its own
+          (instance, process, run, error); the pause (reason: error count) follows the n-th, and the count starts afresh
+          after a pause write that succeeded *)
+       if on "C13" then begin
+         let n = zi (match find_to cfg s with Some t -> resolve_pause cfg t.to_pause | None -> resolve_pause cfg Z0) in
+         let seg_failed = List.exists (fun t -> match tok_res t with Some r -> failed r | None -> false) seg in
+         let pending = ref None in
+         let close () =
+           (match !pending with
+            | Some (run, c) -> if n > 0 && c >= n && not seg_failed then bad "C13" "run %d not paused at timeout failure %d of %d" run c n
+            | None -> ());
+           pending := None in
+         List.iter (function
+           | TUser (UFTimeout _, view, _, _, UErr e) ->
+             close ();
+             let k = (inst, u, view.r_run, zi e) in
+             let c = (try Hashtbl.find fail_count k with Not_found -> 0) + 1 in
+             Hashtbl.replace fail_count k c;
+             pending := Some (ni view.r_run, c);
+             Hashtbl.replace cur_key (inst, u) k
+           | TUser (UFTimeout _, _, _, _, _) -> close ()
+           | TStore (_, r, a) when r.r_state = RSPaused && (match !pending with Some (run, _) -> run = ni r.r_run | None -> false) ->
+             (match !pending with
+              | Some (run, c) ->
+                if n = 0 then bad "C13" "run %d paused by a failing timeout although no error count is configured" run;
+                if n > 0 && c < n then bad "C13" "run %d paused at timeout failure %d of %d" run c n;
+                if a = ROk then (match Hashtbl.find_opt cur_key (inst, u) with Some k -> Hashtbl.replace fail_count k 0 | None -> ());
+                pending := None
+              | None -> ())
+           | _ -> ()) seg;
+         close ()
+       end;
        if on "C12" then begin
          (* a cancelled timer's run has moved on or finished; completion only after a stored transition *)
          let last_lk = ref None and stored = ref false in
@@ -413,6 +446,17 @@ let check_tokens (cfg : econfig) (ops : eop list) (tr : tok list) : unit =
          scan seg
        end
      end);
+    (* C15 / C16: the object written for a run is made from that run's stored object alone. The harness object has a field that
+       is present exactly for odd seeds; an object whose field does not fit its own seed carries data of another run (a decode
+       target re-used across runs) and is printed with the marker -777 in its trail *)
+    (if on "C15" || on "C16" || on "C01" then
+       List.iter (function
+         | TStore (_, r, _) ->
+           (match r.r_obj with
+            | OVal (_, tr) when List.exists (fun x -> zi x = -777) tr ->
+              bad (if on "C15" then "C15" else if on "C16" then "C16" else "C01") "run %d: the object written carries a field of another run's object (it was not made from this run's stored object alone)" (ni r.r_run)
+            | _ -> ())
+         | _ -> ()) seg);
     (* C15: a failing delete function leaves the run RequestedDataDeleted: no write, no Ack *)
     (if on "C15" then begin
        let failed_delete = ref false in
